@@ -173,6 +173,7 @@ class KernelEval:
 
   def __init__(self, sm: SourceModel, entry: FuncInfo, static_vals: Optional[Dict[str, Any]] = None, closure_bind: Optional[Dict[str, Any]] = None, param_consts: Optional[Dict[str, Any]] = None):
     self.param_consts = dict(param_consts or {})
+    self.mark_returns = set()  # func keys whose inlined results are wrapped as ret(<key>, value)
     self.sm = sm
     self.entry = entry
     self.static_vals = dict(static_vals or {})  # factory-param name -> python value (bool/int/enum tuple)
@@ -1358,9 +1359,10 @@ class KernelEval:
     rets = [v for _, v in nf.returns if v is not None]
     if not rets:
       return C(None)
-    if len(rets) == 1:
-      return rets[0]
-    return self._merge_returns(rets)
+    out = rets[0] if len(rets) == 1 else self._merge_returns(rets)
+    if fi.key in self.mark_returns and isinstance(out, T):
+      return T("ret", fi.key, out)
+    return out
 
   def _merge_returns(self, rets):
     # tuple-wise merge when all returns are tuples of equal arity
@@ -1449,5 +1451,7 @@ def returned_function(fi: FuncInfo) -> Optional[FuncInfo]:
   return rets[0] if rets else None
 
 
-def evaluate(sm: SourceModel, fi: FuncInfo, static_vals=None, closure_bind=None, param_consts=None) -> KernelEval:
-  return KernelEval(sm, fi, static_vals, closure_bind, param_consts).run()
+def evaluate(sm: SourceModel, fi: FuncInfo, static_vals=None, closure_bind=None, param_consts=None, mark_returns=None) -> KernelEval:
+  ke = KernelEval(sm, fi, static_vals, closure_bind, param_consts)
+  ke.mark_returns = set(mark_returns or ())
+  return ke.run()
